@@ -179,10 +179,12 @@ Definition xx_shift (haploid_x_ref is_xx : bool) : Q :=
 Definition set_log2 (b : bin) (v : Q) : bin :=
   mkBin (b_chr b) (b_start b) (b_end b) (b_gene b) v (b_weight b) (b_depth b) (b_probes b).
 
+(* (in the two other cases -- xx_shift = 0 -- the code leaves the table as it is) *)
 Definition shift_xx (haploid_x_ref is_xx : bool) (rows : list bin) : list bin :=
   let x := x_label rows in
   let d := xx_shift haploid_x_ref is_xx in
-  map (fun b => if String.eqb (b_chr b) x then set_log2 b (Qred (b_log2 b + d)) else b) rows.
+  if Qeq_bool d 0 then rows
+  else map (fun b => if String.eqb (b_chr b) x then set_log2 b (Qred (b_log2 b + d)) else b) rows.
 
 (* ---- genemetrics ---------------------------------------------------------------- *)
 
@@ -358,3 +360,10 @@ Definition sort_b (l : list brow) : list brow := fold_right ins_b [] l.
 
 Definition do_breaks (rows segs : list bin) (min_probes : Z) : list brow :=
   sort_b (breakpoints_raw (gene_intervals IGNORE_GENE_NAMES rows) min_probes segs).
+
+(* ---- keys in order of first occurrence (DataFrame.groupby(sort=False), OrderedDict) ---------- *)
+Fixpoint dedup (l : list string) : list string :=
+  match l with
+  | [] => []
+  | x :: t => x :: filter (fun y => negb (String.eqb y x)) (dedup t)
+  end.
